@@ -166,7 +166,9 @@ Proof. exact mock_spec. Qed.
 Print Assumptions C20_mock_spec.
 
 (* ---- the wrappers: every request within the uint64 id range is accepted, is never contradictory,
-   and asks for: t (+ z) (+ y, x) as float64 axes, edge properties score: float64 and color: int64 *)
+   and asks for: t (+ z) (+ y, x) as float64 axes, edge properties score: float64 and color: int64.
+   (The last three conjuncts are DEFINITIONAL: the model's wrappers are aliases of mock on simple_params;
+   that the real wrappers forward their arguments like that is evidence of the correspondence only.) *)
 Theorem C20_wrappers : forall n e d z y x,
   (req_wf (simple_params n e d z y x) /\ names_ok (simple_params n e d z y x)) /\
   (0 <= n <= 2 ^ 64 -> exists st, mock (simple_params n e d z y x) = Ok (st, spec_geff (simple_params n e d z y x) DU64)) /\
